@@ -14,6 +14,7 @@ From Pnc Require Import CSub.
 From Pnc Require Import Gen_begins.
 From Pnc Require Import Proofs_GenBegins.
 From Pnc Require Import Proofs_GenBeginsRedef.
+From Pnc Require Import Proofs_GenBeginsRedef2.
 Set Printing Width 100.
 Set Printing Depth 100000.
 
@@ -501,3 +502,40 @@ Theorem C06_gen_begins_redef_runs :
            |} 0 0 4 4 0 (exr_lay 0 100 512 4) (false :: true :: nil) = true.
 Proof. exact @gen_begins_redef_runs. Qed.
 Print Assumptions C06_gen_begins_redef_runs.
+
+(* the WHOLE generated NC_begins in an enddef after redef (ncp->old != NULL, view c_view_nc_redef2 = what Exec.do_enddef passes: old layout and is-record flags), for every header with at least one variable satisfying begins_guards_redef (new-file guards + the old offsets bounded by OB + the potential with 2 OB below 2^63) and with the safe-mode test not taken: NC_EVARSIZE exactly when Header.begins h hm vm ha ra (Some (ol, recs)) pbr is None, else NC_NOERR with xsz, begin_var, begin_rec, recsize and every begin as Header.begins says (nothing moves towards the beginning of the file) *)
+Theorem C06_gen_begins_eq_redef :
+  forall (h : Header.hdr) (hm vm ha ra pbr flags sm np OB : Z) (ol : Header.layout)
+           (recs : list bool),
+         Header.h_vars h <> nil ->
+         (z2b sm && (np >? 1)%Z)%bool = false ->
+         begins_guards_redef h hm vm ha ra pbr OB ol recs ->
+         exists (rc : Z) (s' : st_NC_begins),
+           NC_begins_c (c_view_nc_redef2 h hm vm ha ra pbr flags sm np ol recs) (Header.hdr_len h) =
+           FValS rc s' /\
+           match Header.begins h hm vm ha ra (Some (ol, recs)) pbr with
+           | Some lay =>
+               rc = Gen_consts.NC_NOERR /\
+               layout_of_state s' = lay /\
+               NC__numrecs (NC_begins__P_ncp s') =
+               (if z2b (Z.land flags 32768) then 0%Z else Header.h_numrecs h)
+           | None => rc = Gen_consts.NC_EVARSIZE
+           end.
+Proof. exact @gen_begins_eq_redef. Qed.
+Print Assumptions C06_gen_begins_eq_redef.
+
+Theorem C06_begins_guards_redef_ex :
+  begins_guards_redef
+           {|
+             Header.h_format := 2;
+             Header.h_numrecs := 3;
+             Header.h_dims := exb_dims;
+             Header.h_gatts := nil;
+             Header.h_vars :=
+               exb_var 97 (1%Z :: 2%Z :: nil) 3
+               :: exb_var 98 (0%Z :: 1%Z :: nil) 5
+                  :: exb_var 99 (2%Z :: nil) 1 :: exb_var 100 (0%Z :: 2%Z :: nil) 6 :: nil
+           |} 0 0 4 4 (Header.l_begin_rec (exr_lay 0 0 512 4)) 100000 (exr_lay 0 0 512 4)
+           (false :: true :: nil).
+Proof. exact @begins_guards_redef_ex. Qed.
+Print Assumptions C06_begins_guards_redef_ex.
